@@ -43,6 +43,7 @@ CanonOp(op) == CASE op.k = "single" -> [k |-> "single"]
                  [] op.k = "multi" -> [k |-> "multi", p |-> op.p]
                  [] op.k = "pflood" -> [k |-> "pflood"]
                  [] op.k = "mst" -> [k |-> "mst", m |-> op.m, r |-> op.r]
+                 [] op.k = "inject" -> [k |-> "inject", d |-> op.d, rec |-> op.rec, w8 |-> op.w8, sd |-> op.sd]
                  [] OTHER -> [k |-> "snap"]
 Canon(ops) == SelectSeq([i \in DOMAIN ops |-> CanonOp(ops[i])], LAMBDA o : o.k # "snap")
 Parallel(ops) == \E i \in DOMAIN ops : ops[i].k = "single" /\ "thr" \in DOMAIN ops[i] /\ ops[i].thr > 1
@@ -119,6 +120,10 @@ UpdateContractsWF(g, r, line) ==
      /\ Has("C06") => /\ Chk("C06.Donors", line, C06Donors(x, r))
                       /\ Chk("C06.Dfs", line, C06Dfs(x, r))
                       /\ Chk("C06.Bfs", line, C06Bfs(x, r))
+     \* a user-defined router that installs a given table: the state is that table (harness self-check)
+     /\ (last.k = "inject") => Chk("MACHINERY.InstalledTableIsObserved", line,
+                                    r.rec = last.rec /\ r.nrec = [q \in DOMAIN last.rec |-> Len(last.rec[q])]
+                                    /\ \A q \in DOMAIN last.rec : Len(last.rec[q]) > 1 => r.w8[q] = last.w8[q])
      /\ (Has("C01") /\ Resolved(ops)) =>
                       /\ Chk("C01.Terminals", line, C01Terminals(x, r))
                       /\ Chk("C01.Descent", line, C01Descent(x, r))
